@@ -143,11 +143,12 @@ def patched(point, on_call):
         setattr_(HP.BeautifulSoupHTMLParser, "__init__", lambda self, *a, **k: on_call(point, lambda: real(self, *a, **k)))
     elif point in ("tokFeed", "tokClose"):
         want = 0 if point == "tokFeed" else 1
+        prev = vars(HP.BeautifulSoupHTMLParser).get("goahead", HTMLParser.goahead)   # chain with the other phase's patch
 
         def goahead(self, end):
             if bool(end) == bool(want):
-                return on_call(point, lambda: HTMLParser.goahead(self, end), after=True)
-            return HTMLParser.goahead(self, end)
+                return on_call(point, lambda: prev(self, end), after=True)
+            return prev(self, end)
         setattr_(HP.BeautifulSoupHTMLParser, "goahead", goahead)
     elif point == "intOf":
         setattr_(HP, "int", lambda *a: on_call(point, lambda: int(*a)))
